@@ -61,6 +61,11 @@ IA5_STRING        = 0x16
 
 _asn1_class = ('Universal', 'Application', 'Context-specific', 'Private')
 
+# Limits on the size of numbers decoded from untrusted data, well above
+# anything in real use (object identifiers may hold 128-bit UUIDs)
+_MAX_TAG = (1 << 64) - 1
+_MAX_OID_COMPONENT = (1 << 256) - 1
+
 _der_class_by_tag: Dict[int, _DERClass] = {}
 _der_class_by_type: Dict[Union[object, _DERClass], _DERClass] = {}
 
@@ -650,6 +655,9 @@ class ObjectIdentifier(DERType):
                 component |= b & 0x7f
                 component <<= 7
 
+                if component > _MAX_OID_COMPONENT:
+                    raise ASN1DecodeError('Component too large')
+
         if component:
             raise ASN1DecodeError('Incomplete component')
 
@@ -723,6 +731,9 @@ def der_decode_partial(data: bytes) -> Tuple[object, int]:
             else:
                 tag |= b & 0x7f
                 tag <<= 7
+
+                if tag > _MAX_TAG:
+                    raise ASN1DecodeError('Tag number too large')
         else:
             raise ASN1DecodeError('Incomplete tag')
 
@@ -744,13 +755,16 @@ def der_decode_partial(data: bytes) -> Tuple[object, int]:
     if end > len(data):
         raise ASN1DecodeError('Incomplete data')
 
-    if asn1_class == UNIVERSAL and tag in _der_class_by_tag:
-        cls = _der_class_by_tag[tag]
-        value = cls.decode(constructed, content)
-    elif constructed:
-        value = TaggedDERObject(tag, der_decode(content), asn1_class)
-    else:
-        value = RawDERObject(tag, content, asn1_class)
+    try:
+        if asn1_class == UNIVERSAL and tag in _der_class_by_tag:
+            cls = _der_class_by_tag[tag]
+            value = cls.decode(constructed, content)
+        elif constructed:
+            value = TaggedDERObject(tag, der_decode(content), asn1_class)
+        else:
+            value = RawDERObject(tag, content, asn1_class)
+    except RecursionError:
+        raise ASN1DecodeError('ASN.1 data nested too deeply') from None
 
     return value, end
 
